@@ -356,6 +356,56 @@ theorem e2e_idx {α : Type} (P : List (Option Nat × Nat × α) → Prop) (xs : 
   obtain ⟨l2, a2, b2⟩ := idxCalls_iter_of_log xs w hw
   exact ⟨⟨l1, a1, b1 ▸ hto⟩, ⟨l2, a2, b2 ▸ hit⟩⟩
 
+/-! ### the two-series index drivers (`rolling2_apply_idx_to` / `rolling2_apply_idx`) -/
+
+def idx2CallsOfLogTo {α β : Type} (xs : List α) (ys : List β) (log : List (Nat × Option Nat × Nat × (Nat × Nat))) :
+    List (Option Nat × Nat × (α × β)) :=
+  log.filterMap fun ev =>
+    match xs[ev.2.2.2.1]?, ys[ev.2.2.2.2]? with
+    | some a, some b => some (ev.2.1, ev.2.2.1, (a, b))
+    | _, _ => none
+
+def idx2CallsOfLogIter {α β : Type} (xs : List α) (ys : List β) (log : List (Option Nat × Nat × (Nat × Nat))) :
+    List (Option Nat × Nat × (α × β)) :=
+  log.filterMap fun ev =>
+    match xs[ev.2.2.1]?, ys[ev.2.2.2]? with
+    | some a, some b => some (ev.1, ev.2.1, (a, b))
+    | _, _ => none
+
+theorem idx2Calls_to_of_log {α β : Type} (xs : List α) (ys : List β) (w : Nat) (hw : 1 ≤ w)
+    (hlen : xs.length ≤ ys.length) :
+    ∃ log, GenDrv.rolling2_apply_idx_to.run xs.length ys.length w = some log ∧
+      idx2Calls .to xs ys w = idx2CallsOfLogTo xs ys log := by
+  refine ⟨_, rolling2_apply_idx_to_eq xs.length ys.length w (Or.inl hw) hlen, ?_⟩
+  unfold idx2Calls idx2CallsOfLogTo Shape.idx
+  rw [List.filterMap_map]
+  apply List.filterMap_congr
+  rintro ⟨s, e⟩ _
+  simp only [Function.comp]
+  cases h1 : xs[e]? <;> cases h2 : ys[e]? <;> simp [h1, h2]
+
+theorem idx2Calls_iter_of_log {α β : Type} (xs : List α) (ys : List β) (w : Nat) (hw : 1 ≤ w) :
+    ∃ log, GenDrv.rolling2_apply_idx.run xs.length xs.length w = some log ∧
+      idx2Calls .iter xs ys w = idx2CallsOfLogIter xs ys log := by
+  refine ⟨_, rolling2_apply_idx_iter_eq xs.length w hw, ?_⟩
+  unfold idx2Calls idx2CallsOfLogIter Shape.idx
+  rw [List.filterMap_map]
+  apply List.filterMap_congr
+  rintro ⟨s, e⟩ _
+  simp only [Function.comp]
+  cases h1 : xs[e]? <;> cases h2 : ys[e]? <;> simp [h1, h2]
+
+def E2EIdx2 {α β : Type} (P : List (Option Nat × Nat × (α × β)) → Prop) (xs : List α) (ys : List β) (w : Nat) : Prop :=
+  (∃ log, GenDrv.rolling2_apply_idx_to.run xs.length ys.length w = some log ∧ P (idx2CallsOfLogTo xs ys log)) ∧
+  (∃ log, GenDrv.rolling2_apply_idx.run xs.length xs.length w = some log ∧ P (idx2CallsOfLogIter xs ys log))
+
+theorem e2e_idx2 {α β : Type} (P : List (Option Nat × Nat × (α × β)) → Prop) (xs : List α) (ys : List β)
+    (w : Nat) (hw : 1 ≤ w) (hlen : xs.length ≤ ys.length)
+    (hto : P (idx2Calls .to xs ys w)) (hit : P (idx2Calls .iter xs ys w)) : E2EIdx2 P xs ys w := by
+  obtain ⟨l1, a1, b1⟩ := idx2Calls_to_of_log xs ys w hw hlen
+  obtain ⟨l2, a2, b2⟩ := idx2Calls_iter_of_log xs ys w hw
+  exact ⟨⟨l1, a1, b1 ▸ hto⟩, ⟨l2, a2, b2 ▸ hit⟩⟩
+
 /-! ## the backend overrides run the `*_to` drivers on a buffer of `self.len()` slots -/
 
 /-- every override of a rolling method in backends_impl/vec.rs and ndarray.rs binds `len` to
